@@ -8,7 +8,8 @@ C16 exact partition by split/merge).
 Harness lines:   `new …` / `op … => <observed>` / `drop … => <observed>` are sent to the driver
 (the part before ` => `) and its answer is compared VERBATIM with the observed part;
 `oracle <PROP> <msg>` are implementation-vs-property failures; `zop …` (zero-sized elements, checked by
-counting oracles only) and `# …` lines are not sent.
+counting oracles only), `xop …` (operations that are not modelled yet: std / accounting oracles only, followed by a
+`new` line that re-synchronises the model) and `# …` lines are not sent.
 """
 import os, subprocess, collections, re
 from lib import *
@@ -49,6 +50,8 @@ def run_coll(ctx, traces, ops, profile, oracle_props=None, seed_offset=0, label=
     summary = {}
     tn = -1
     zops = 0
+    xops = 0
+    xby = collections.Counter()
     for l in p.stdout.splitlines():
         if l.startswith("# trace "):
             tn += 1; trace_hdr[tn] = l[2:]; continue
@@ -62,6 +65,8 @@ def run_coll(ctx, traces, ops, profile, oracle_props=None, seed_offset=0, label=
             oracle_lines.append((tn, prop, msg, len(trace_lines[tn]))); continue
         if l.startswith("zop "):
             zops += 1; trace_lines[tn].append(l); continue
+        if l.startswith("xop "):
+            xops += 1; xby[l.split()[1]] += 1; trace_lines[tn].append(l); continue
         if l.startswith(("new ", "op ", "drop ")):
             q, sep, r = l.partition(" => ")
             queries.append(q); expected.append(r if sep else "ok"); meta.append(tn); trace_lines[tn].append(l)
@@ -115,9 +120,10 @@ def run_coll(ctx, traces, ops, profile, oracle_props=None, seed_offset=0, label=
                 ctx.oracle_failures.append(rec)
         elif len([f for f in ctx.oracle_failures if not f.get("known")]) < 20:
             ctx.oracle_failures.append(rec)
-    ctx.evaluations += n_ops + zops
+    ctx.evaluations += n_ops + zops + xops
     st = ctx.corr.setdefault("coll", {})
-    st[label] = {"traces": tn + 1, "ops_compared_with_model": n_ops, "zero_sized_ops_oracle_only": zops, "by_op": dict(by_op),
+    st[label] = {"traces": tn + 1, "ops_compared_with_model": n_ops, "zero_sized_ops_oracle_only": zops, "sized_ops_oracle_only": xops,
+                 "by_op": dict(by_op), "oracle_only_by_op": dict(xby),
                  "disagreeing_traces": len(bad_traces), "oracle_lines_by_property": dict(counted), **summary}
     if len(ctx.samples) < 6:
         for t in sorted(trace_lines):
